@@ -23,6 +23,7 @@ import WntrModel.Props.C17
 import WntrModel.Props.C13
 import WntrModel.Lemmas.InpFormat
 import WntrModel.Lemmas.InpNorm
+import WntrModel.Lemmas.InpRead
 import Mathlib.Data.List.Basic
 import Mathlib.Tactic.Ring
 import Mathlib.Tactic.Linarith
@@ -662,3 +663,118 @@ theorem rule_normal_form_roundtrip {α : Type} [Inhabited α] (c : Cond α) :
 example : ofGroups (cnf (Cond.or (.and (.atom 0) (.atom 1)) (.atom 2))) = Cond.and (.or (.atom 0) (.atom 2)) (.or (.atom 1) (.atom 2)) := by decide
 
 end Wntr.InpNorm
+
+/-! ## Part D — the line handling of `InpFile.read`: what in a file does not matter -/
+namespace Wntr.InpRead
+
+open Wntr.InpSchema in
+/-- **`read_ignores_comments_and_blank_lines`**: (1) a line of white space anywhere in a file does not change what `read`
+stores; (2) a comment line (first non-blank character `;`) inside a section is stored but no section reader ever sees it:
+a section's rows (`split(';')[0].split()`, empty ones skipped) are the same with and without it -/
+theorem read_ignores_comments_and_blank_lines (names : List String) (a b : List (List Char)) (raw : List Char) :
+    ((∀ c ∈ raw, isWs c = true) → read names (a ++ raw :: b) = read names (a ++ b)) ∧
+    (∀ l : List Char, l.head? = some ';' → ∀ (cs ds : List LineClass) (s : String),
+      (readC (cs ++ LineClass.data l :: ds)).rows s = (readC (cs ++ ds)).rows s ∨ (readC cs).cur = none ∨ (readC cs).done = true ∨ (readC cs).err = true) := by
+  constructor
+  · intro h
+    simp only [read, List.map_append, List.map_cons, classify_blank names raw h, readC_append, List.foldl_cons, stepC_blank]
+  · intro l hl cs ds s
+    by_cases hd : (readC cs).done = true
+    · exact Or.inr (Or.inr (Or.inl hd))
+    by_cases he : (readC cs).err = true
+    · exact Or.inr (Or.inr (Or.inr he))
+    cases hc : (readC cs).cur with
+    | none => exact Or.inr (Or.inl rfl)
+    | some sec =>
+      left
+      have hd' : (readC cs).done = false := by simpa using hd
+      have he' : (readC cs).err = false := by simpa using he
+      have hstep : stepC (readC cs) (.data l) = { readC cs with lines := (readC cs).lines ++ [(sec, l)] } := by
+        simp [stepC, hd', he', hc]
+      simp only [readC_append, List.foldl_cons, hstep]
+      rw [foldl_lines_acc ds { readC cs with lines := (readC cs).lines ++ [(sec, l)] }, foldl_lines_acc ds (readC cs)]
+      simp only [RState.rows, RState.linesOf, List.filter_append, List.map_append, List.filterMap_append]
+      by_cases hs : (sec == s) = true
+      · simp [List.filter_cons, hs, fieldsOf_comment l hl]
+      · have : (sec == s) = false := by simpa using hs
+        simp [List.filter_cons, this]
+
+/-- **`section_order_irrelevant`**: a file made of whole sections, each section name once: permuting the sections gives the
+same lines for every section … -/
+theorem section_order_irrelevant (blocks blocks' : List (String × List (List Char))) (hp : blocks.Perm blocks')
+    (hn : (blocks.map (·.1)).Nodup) (s : String) :
+    (readC (fileOf blocks)).linesOf s = (readC (fileOf blocks')).linesOf s := by
+  rw [linesOf_fileOf, linesOf_fileOf]
+  have hperm := hp.filter (fun b => b.1 == s)
+  rw [perm_eq_of_length_le_one hperm (filter_key_le_one blocks hn s)]
+
+/-- … hence the same model, whatever the section readers do (they run in the fixed order `order` on the stored lines) -/
+theorem section_order_irrelevant_model {σ : Type} (readers : String → List (List Char) → σ → σ) (order : List String) (m0 : σ)
+    (blocks blocks' : List (String × List (List Char))) (hp : blocks.Perm blocks') (hn : (blocks.map (·.1)).Nodup) :
+    build readers order (readC (fileOf blocks)) m0 = build readers order (readC (fileOf blocks')) m0 :=
+  build_congr readers order _ _ m0 fun s _ => section_order_irrelevant blocks blocks' hp hn s
+
+/-- **`line_order_within_section`**: the result of `read` depends on the file only through the lines stored per section and
+the fixed reader order; when the reader of a section does not depend on the order of its lines (`hperm`, the property
+the permutation oracle tests for every section not listed in `Gen.orderSensitive`), permuting the lines inside that
+section changes nothing -/
+theorem line_order_within_section {σ : Type} (readers : String → List (List Char) → σ → σ) (order : List String) (m0 : σ)
+    (pre post : List (String × List (List Char))) (s : String) (body body' : List (List Char)) (hb : body.Perm body')
+    (hs : ∀ b ∈ pre ++ post, b.1 ≠ s)
+    (hperm : ∀ (l l' : List (List Char)) (m : σ), l.Perm l' → readers s l m = readers s l' m) :
+    build readers order (readC (fileOf (pre ++ (s, body) :: post))) m0 = build readers order (readC (fileOf (pre ++ (s, body') :: post))) m0 := by
+  unfold build
+  have hother : ∀ t, t ≠ s → (readC (fileOf (pre ++ (s, body) :: post))).linesOf t = (readC (fileOf (pre ++ (s, body') :: post))).linesOf t := by
+    intro t ht
+    have : (s == t) = false := by simpa using fun h => ht h.symm
+    simp [linesOf_fileOf, List.filter_append, List.filter_cons, this]
+  have hself : (readC (fileOf (pre ++ (s, body) :: post))).linesOf s = body ∧ (readC (fileOf (pre ++ (s, body') :: post))).linesOf s = body' := by
+    have h1 : (pre.filter fun b => b.1 == s) = [] := by
+      rw [List.filter_eq_nil_iff]; intro b hb' hbs; exact hs b (List.mem_append_left _ hb') (by simpa using hbs)
+    have h2 : (post.filter fun b => b.1 == s) = [] := by
+      rw [List.filter_eq_nil_iff]; intro b hb' hbs; exact hs b (List.mem_append_right _ hb') (by simpa using hbs)
+    simp [linesOf_fileOf, List.filter_append, List.filter_cons, h1, h2]
+  induction order generalizing m0 with
+  | nil => rfl
+  | cons t rest ih =>
+    simp only [List.foldl_cons]
+    by_cases ht : t = s
+    · subst ht
+      rw [hself.1, hself.2, hperm body body' m0 hb]
+      exact ih _
+    · rw [hother t ht]
+      exact ih _
+
+/-- after `[END]` nothing is read; text before the first header must be comment lines; an unknown section is an error -/
+theorem end_stops_reading (cs ds : List LineClass) : readC (cs ++ LineClass.header .end_ :: ds) = readC (cs ++ [LineClass.header .end_]) := by
+  simp only [readC_append, List.foldl_cons, List.foldl_nil]
+  have hstop : ∀ st : RState, (st.done || st.err) = true → ds.foldl stepC st = st := by
+    intro st h
+    induction ds with
+    | nil => rfl
+    | cons d t ih => simp only [List.foldl_cons]; rw [show stepC st d = st by simp [stepC, h]]; exact ih
+  apply hstop
+  generalize readC cs = st
+  unfold stepC
+  split
+  · assumption
+  · simp
+
+/-- the fixed order: every section has exactly one place in it, and it is a permutation of `_INP_SECTIONS` -/
+theorem read_order_fixed : Wntr.InpSchema.Gen.readOrder.Nodup ∧ Wntr.InpSchema.Gen.readOrder.Perm Wntr.InpSchema.Gen.inpSections := by
+  constructor <;> decide +kernel
+
+/-- the header forms the code accepts: any case, a missing or an extra plural `S`, `[END]`; anything else is refused -/
+example : normSec Wntr.InpSchema.Gen.inpSections "[junctions]".toList = .sec "[JUNCTIONS]" ∧
+    normSec Wntr.InpSchema.Gen.inpSections "[Junction]".toList = .sec "[JUNCTIONS]" ∧
+    normSec Wntr.InpSchema.Gen.inpSections "[TAG]".toList = .sec "[TAGS]" ∧
+    normSec Wntr.InpSchema.Gen.inpSections "[TITLES]".toList = .sec "[TITLE]" ∧
+    normSec Wntr.InpSchema.Gen.inpSections "[end]".toList = .end_ ∧
+    normSec Wntr.InpSchema.Gen.inpSections "[FOO]".toList = .bad := by
+  refine ⟨?_, ?_, ?_, ?_, ?_, ?_⟩ <;> decide +kernel
+
+example : classify Wntr.InpSchema.Gen.inpSections " \t J1   10.5\t0 ;note ".toList = .data "J1   10.5\t0 ;note".toList ∧
+    fieldsOf "J1   10.5\t0 ;note".toList = some ["J1".toList, "10.5".toList, "0".toList] := by
+  constructor <;> decide +kernel
+
+end Wntr.InpRead
